@@ -255,16 +255,10 @@ impl<'a, 'p> ser::Serializer for &'a mut Store<'p> {
     leaf_num!(serialize_u32, u32, Kind::U32, |v: u32| v as u64);
     leaf_num!(serialize_u64, u64, Kind::U64, |v: u64| v);
     fn serialize_i128(self, v: i128) -> Result<(), SimError> {
-        match i64::try_from(v) {
-            Ok(x) => self.leaf(Node::Num { kind: Kind::I128, bits: x as u64 }),
-            Err(_) => self.leaf(Node::Other(format!("i128 {}", v))),
-        }
+        self.leaf(Node::Num { kind: Kind::I128, bits: crate::node::wide::encode(v) })
     }
     fn serialize_u128(self, v: u128) -> Result<(), SimError> {
-        match u64::try_from(v) {
-            Ok(x) => self.leaf(Node::Num { kind: Kind::U128, bits: x }),
-            Err(_) => self.leaf(Node::Other(format!("u128 {}", v))),
-        }
+        self.leaf(Node::Num { kind: Kind::U128, bits: crate::node::wide::encode(v as i128) })
     }
     leaf_num!(serialize_f32, f32, Kind::F32, |v: f32| v.to_bits() as u64);
     leaf_num!(serialize_f64, f64, Kind::F64, |v: f64| v.to_bits());
